@@ -157,6 +157,9 @@ func execSW(in In, em *Emitter) {
 		if abn != "" {
 			return
 		}
+		if c, ok := swCursor(w); ok && (c-base > 1<<29 || c-base < -(1<<29)) {
+			return // the history leaves the range the trace specification models (|offsets| < 2^30): end it here
+		}
 	}
 }
 
@@ -190,8 +193,8 @@ func genC18(g *Gen) {
 			}
 			if at {
 				size = maxInt64 - base // AtToWriter ends at MaxInt64
-				if size > 1<<28 {
-					size = 1 << 28
+				if size > 1<<20 {
+					size = 1 << 20
 				}
 			}
 		}
@@ -199,7 +202,9 @@ func genC18(g *Gen) {
 		if at {
 			ops = append(ops, J{"k": "NewAt", "base": base})
 			if base < 1<<40 {
-				size = 1 << 28
+				// only steers the generated offsets: 20 seeks of this size stay far below the 2^30 that the
+				// trace specification uses for "no practical end"
+				size = 1 << 20
 			}
 		} else {
 			ops = append(ops, J{"k": "New", "base": base, "n": size})
